@@ -86,13 +86,16 @@ def climb (I : Ivl) : Nat → Int → Nat → Int × Nat
     | some k' => climb I f (q + 1) k'
     | none => (q, k)
 
-/-- shortest decimal `(digits, exponent)` of the positive finite double with bit pattern `u`.
-17 digits always give a candidate (`Proofs/Num`: `pick_q17_isSome`), so the `none` branch is dead. -/
-def shortest (u : Nat) : Nat × Int :=
-  let I := ivl u
-  let q0 := q17 I
-  match pick I q0 with
-  | some k => let r := climb I 20 q0 k; (r.2, r.1)
+/-- more than enough steps: `⌊x/10^(q17+18)⌋ = 0` -/
+def climbFuel : Nat := 20
+
+def shortestFrom (I : Ivl) (q0 : Int) : Option Nat → Nat × Int
+  | some k => ((climb I climbFuel q0 k).2, (climb I climbFuel q0 k).1)
   | none => (0, 0)
+
+/-- shortest decimal `(digits, exponent)` of the positive finite double with bit pattern `u`.
+17 digits always give a candidate (`Proofs/Num`: `pick_big` with `q17_spec`), so the `none` branch is dead. -/
+def shortest (u : Nat) : Nat × Int :=
+  shortestFrom (ivl u) (q17 (ivl u)) (pick (ivl u) (q17 (ivl u)))
 
 end GeosModel.Num
